@@ -99,3 +99,192 @@ def visible (stmts : List Stmt) (v : Range) : List Stmt :=
   (stmts.drop (v.1 + 1).toNat).take (v.2 - (v.1 + 1)).toNat
 
 end LianVerif.BlockView
+
+/-! ### viewers as objects: every public method of `GIRBlockViewer`
+
+A statement now also carries the identity of its `Row` object (`uid`) and a code for its operation
+string.  A `Viewer` is a value: `append_other` re-runs `__init__` on the receiver, which binds *new*
+lists/dicts, so viewers that shared the old ones (block views, copies) are not affected. -/
+namespace LianVerif.BlockView
+
+structure VStmt where
+  core : Stmt
+  uid : Nat
+  /-- code of the operation string for statements that are neither block_start nor block_end -/
+  tag : Nat
+  /-- `Row.get_index()` -/
+  label : Int
+deriving DecidableEq, Repr
+
+/-- operation code: 0 = "block_start", 1 = "block_end", 2 + tag otherwise -/
+def VStmt.opcode (s : VStmt) : Nat :=
+  match s.core.kind with
+  | .start => 0
+  | .fin => 1
+  | .other => 2 + s.tag
+
+structure Viewer where
+  coll : List VStmt
+  st : St
+  range : Range
+deriving DecidableEq, Repr
+
+/-- the fields `__init__` sets before it looks at its argument -/
+def Viewer.empty : Viewer := { coll := [], st := St.init, range := (-1, 0) }
+
+def visibleOf {α : Type} (l : List α) (r : Range) : List α :=
+  (l.drop (r.1 + 1).toNat).take (r.2 - (r.1 + 1)).toNat
+
+def Viewer.visible (v : Viewer) : List VStmt := visibleOf v.coll v.range
+
+/-- `__len__` = `BlockRange.size()` -/
+def Viewer.len (v : Viewer) : Nat := (v.range.2 - v.range.1 - 1).toNat
+
+/-- the loop of `__init__`, keeping what had been done when it raised: state after the accepted
+prefix, number of accepted statements, the error -/
+def consumeKeep (s : St) (k : Nat) : List Stmt → St × Nat × Option BErr
+  | [] => (s, k, none)
+  | st :: rest =>
+    match consume s st with
+    | .error e => (s, k, some e)
+    | .ok s' => consumeKeep s' (k + 1) rest
+
+/-- `GIRBlockViewer(unit_gir)` for an iterable of statements -/
+def Viewer.ofList (l : List VStmt) : Except BErr Viewer :=
+  if l.isEmpty then .ok Viewer.empty
+  else match build (l.map (fun s => s.core)) with
+    | .ok s => .ok { coll := l, st := s, range := (-1, (l.length : Int)) }
+    | .error e => .error e
+
+/-- `GIRBlockViewer(other_viewer)`: `util.is_empty(unit_gir)` is asked first, and a viewer without a
+visible statement is "empty" -/
+def Viewer.copy (v : Viewer) : Viewer := if v.len == 0 then Viewer.empty else v
+
+/-- `read_block` as an object -/
+def Viewer.readBlock (v : Viewer) (id : Option Int) : Option Viewer :=
+  match id with
+  | none => none          -- `util.is_empty(block_id)`
+  | some i =>
+    match LianVerif.BlockView.readBlock v.st v.range i with
+    | some r => some { v with range := r }
+    | none => none
+
+/-- `append_other`.  `atomic = true`: the code in the repository now (the rebuild happens on a fresh
+object and is adopted only when it succeeded); `atomic = false`: the pinned commit, where `__init__`
+runs on the receiver itself and a `RuntimeError` leaves it half-built with the range `(-1, 0)`. -/
+def Viewer.appendOther (atomic : Bool) (v o : Viewer) : Viewer × Option BErr :=
+  let combined := v.visible ++ o.visible
+  match Viewer.ofList combined with
+  | .ok r => (r, none)
+  | .error e =>
+    if atomic then (v, some e)
+    else
+      match consumeKeep St.init 0 (combined.map (fun s => s.core)) with
+      | (s, k, _) => ({ coll := combined.take (k + 1), st := s, range := (-1, 0) }, some e)
+
+/-! queries -/
+
+def inRange (r : Range) (k : Int) : Bool := decide (r.1 < k) && decide (k < r.2)
+
+/-- `__getitem__(int)`; `none` = `IndexError` -/
+def Viewer.getItem (v : Viewer) (i : Int) : Option VStmt :=
+  let n : Int := v.len
+  let j := if i < 0 then i + n else i
+  if j < 0 ∨ j ≥ n then none else v.coll[(v.range.1 + 1 + j).toNat]?
+
+/-- `__getitem__(slice(a, b))` = `list(self)[a:b]` -/
+def Viewer.getSlice (v : Viewer) (a b : Int) : List VStmt :=
+  let l := v.visible
+  let n := l.length
+  let cl (x : Int) : Nat := if x < 0 then (x + n).toNat else min x.toNat n
+  (l.drop (cl a)).take (cl b - cl a)
+
+/-- `__contains__`: first index of the statement's id, inside the range, and the very same object -/
+def Viewer.contains (v : Viewer) (uid : Nat) (id : Int) : Bool :=
+  match lookupFirst v.st.first id with
+  | none => false
+  | some (i, _) =>
+    inRange v.range i && (match v.coll[i]? with | some s => s.uid == uid | none => false)
+
+def Viewer.containsStmtId (v : Viewer) (id : Int) : Bool :=
+  match lookupFirst v.st.first id with
+  | none => false
+  | some (i, _) => inRange v.range i
+
+def insertNodup (x : Int) : List Int → List Int
+  | [] => [x]
+  | y :: ys => if x = y then y :: ys else if x < y then x :: y :: ys else y :: insertNodup x ys
+
+/-- `get_all_stmt_ids`: `sorted(set(...))` -/
+def Viewer.allStmtIds (v : Viewer) : List Int :=
+  (v.visible.map (fun s => s.core.id)).foldl (fun acc x => insertNodup x acc) []
+
+/-- `get_block_stmt_ids`: no visibility check -/
+def Viewer.blockStmtIds (v : Viewer) (id : Option Int) : List Int :=
+  match id with
+  | none => []
+  | some i =>
+    match lookupRange v.st.ranges i with
+    | none => []
+    | some (p, q) => (visibleOf v.coll ((p : Int), (q : Int))).map (fun s => s.core.id)
+
+def Viewer.stmtById (v : Viewer) (id : Int) : Option VStmt :=
+  match lookupFirst v.st.first id with
+  | none => none
+  | some (i, _) => if inRange v.range i then v.coll[i]? else none
+
+def Viewer.stmtByPos (v : Viewer) (k : Int) : Option VStmt :=
+  if inRange v.range k then v.coll[k.toNat]? else none
+
+def Viewer.queryOperation (v : Viewer) (code : Nat) : List VStmt :=
+  v.visible.filter (fun s => s.opcode == code)
+
+/-- `boundary_of_multi_blocks`: no visibility check -/
+def Viewer.boundary (v : Viewer) (ids : List (Option Int)) : Int :=
+  ids.foldl (fun m id =>
+    match id with
+    | none => m
+    | some i =>
+      match lookupRange v.st.ranges i with
+      | none => m
+      | some (_, q) => if (q : Int) > m then (q : Int) else m) (-1)
+
+/-- the objects of a history -/
+inductive VOp where
+  | new (l : List VStmt)
+  | empty
+  | copy (i : Nat)
+  | read (i : Nat) (id : Option Int)
+  | append (i j : Nat)
+deriving DecidableEq, Repr
+
+inductive VOut where
+  | ok | none | err (e : BErr) | badSlot
+deriving DecidableEq, Repr
+
+def stepV (atomic : Bool) (slots : List Viewer) : VOp → List Viewer × VOut
+  | .new l =>
+    match Viewer.ofList l with
+    | .ok v => (slots ++ [v], .ok)
+    | .error e => (slots, .err e)
+  | .empty => (slots ++ [Viewer.empty], .ok)
+  | .copy i =>
+    match slots[i]? with
+    | some v => (slots ++ [v.copy], .ok)
+    | none => (slots, .badSlot)
+  | .read i id =>
+    match slots[i]? with
+    | some v =>
+      match v.readBlock id with
+      | some b => (slots ++ [b], .ok)
+      | none => (slots, .none)
+    | none => (slots, .badSlot)
+  | .append i j =>
+    match slots[i]?, slots[j]? with
+    | some v, some o =>
+      match Viewer.appendOther atomic v o with
+      | (v', none) => (slots.set i v', .ok)
+      | (v', some e) => (slots.set i v', .err e)
+    | _, _ => (slots, .badSlot)
+
+end LianVerif.BlockView
